@@ -196,6 +196,21 @@ def atoms_of(t, acc):
     return acc
 
 
+def form_sexp(t, atom_ids):
+    """holpy term -> wire form of the model's `Form` (atoms numbered by `atom_ids`)."""
+    if t.is_not():
+        return ["not", form_sexp(t.arg, atom_ids)]
+    for test, tag in (("is_conj", "and"), ("is_disj", "or"), ("is_implies", "imp"), ("is_equals", "iff")):
+        if getattr(t, test)():
+            return [tag, form_sexp(t.arg1, atom_ids), form_sexp(t.arg, atom_ids)]
+    return ["atom", atom_ids[t.name]]
+
+
+def canon_clauses(cnf):
+    """A CNF as a set of clauses, each clause a sorted tuple of distinct literals."""
+    return sorted({tuple(sorted(set((int(n), bool(b)) for n, b in cl))) for cl in cnf})
+
+
 def tseitin_stage(ctx):
     from kernel import term as T, theory, report
     from kernel.type import BoolType
@@ -204,9 +219,13 @@ def tseitin_stage(ctx):
     basic.load_theory('sat')
     rng = ctx.rng("tseitin")
     atoms = [T.Var(n, BoolType) for n in "abcd"]
+    atom_ids = {"a": 0, "b": 1, "c": 2, "d": 3}
     n = ctx.scale(25, 300)
-    for i in range(n):
-        f = gen_formula(rng, rng.randint(1, 3), atoms, T)
+    lines, impl_cnfs = [], []
+    fixed = [atoms[0], T.And(atoms[0], atoms[0]), T.Eq(atoms[0], atoms[1]), T.Not(T.Not(atoms[0])),
+             T.Or(T.And(atoms[0], T.Not(atoms[0])), atoms[1]), T.Implies(T.And(atoms[0], atoms[1]), T.And(atoms[0], atoms[1]))]
+    for i in range(n + len(fixed)):
+        f = fixed[i] if i < len(fixed) else gen_formula(rng, rng.randint(1, 3), atoms, T)
         ctx.case(("tseitin", str(f)), nontrivial=not f.is_var())
         ctx.count("tseitin")
         try:
@@ -229,6 +248,13 @@ def tseitin_stage(ctx):
         except Exception as e:  # noqa
             ctx.violation("tseitin:not-cnf", "conclusion of Tseitin theorem for %s is not a CNF" % f, {"formula": str(f), "prop": str(pt.prop)})
             continue
+        # correspondence with the model's clause set: same numbering x1..xn of the subterms
+        try:
+            order = tseitin.logic_subterms(f)
+            lines.append(sexp.dumps(["tseitin", form_sexp(f, atom_ids), [form_sexp(g, atom_ids) for g in order]]))
+            impl_cnfs.append((str(f), [[(int(nm[1:]) if nm[:1] == "x" and nm[1:].isdigit() else -1, b) for nm, b in cl] for cl in cnf]))
+        except Exception as e:  # noqa
+            ctx.broken("correspondence:c15:tseitin", "cannot read the subterm numbering of %s: %r" % (f, e))
         f_atoms = sorted(atoms_of(f, set()))
         f_sat = any(eval_form(f, dict(zip(f_atoms, bits))) for bits in itertools.product((False, True), repeat=len(f_atoms)))
         names = sorted({nm for cl in cnf for nm, _ in cl})
@@ -251,6 +277,22 @@ def tseitin_stage(ctx):
                     ctx.violation("tseitin:invalid-sequent", "Tseitin theorem for %s is not valid" % f, {"formula": str(f), "assignment": a})
                     break
     ctx.sample({"tseitin_formula": str(f)})
+    out = ctx.lean_driver(EXE, lines) if lines else []
+    if out is None:
+        ctx.broken("correspondence:c15:driver", "model driver unavailable (tseitin)")
+        return
+    ndis = 0
+    for (fs, icnf), line in zip(impl_cnfs, out):
+        ctx.count("tseitin:cnf-compared")
+        try:
+            m = canon_clauses([[(n_, b_ == "T") for n_, b_ in cl] for cl in sexp.loads(line)])
+        except Exception:  # noqa
+            m = line
+        if m != canon_clauses(icnf):
+            ndis += 1
+            if ndis <= 3:
+                ctx.broken("correspondence:c15:tseitin", "formula=%s impl=%s model=%s" % (fs, canon_clauses(icnf), m))
+                ctx.coverage["disagreements_checked"] += 1
 
 
 # ------------------------------------------------------------------ Gen.lean (translated encode_* rules)
@@ -323,6 +365,16 @@ def translate_encode_rules(ctx):
         a, b = lean(e[1]), lean(e[2])
         return {"and": "(%s && %s)", "or": "(%s || %s)", "imp": "((!%s) || %s)", "iff": "(%s == %s)"}[e[0]] % (a, b)
 
+    def flatten(e, op):
+        return flatten(e[1], op) + flatten(e[2], op) if e[0] == op else [e]
+
+    def lean_lit(e):
+        if e[0] == "var":
+            return "(%s, true)" % e[1]
+        if e[0] == "not" and e[1][0] == "var":
+            return "(%s, false)" % e[1][1]
+        raise ValueError("untranslatable: right-hand side of an encode rule is not a CNF: %r" % (e,))
+
     lines = ["/- GENERATED by harness/props/c15.py from library/sat.json and syntax/operator.py; do not edit. -/",
              "namespace Holpy.C15.Gen", ""]
     names = []
@@ -331,6 +383,14 @@ def translate_encode_rules(ctx):
         args = " ".join(vs)
         lines.append("/-- %s : %s -/" % (name, prop))
         lines.append("def %s (%s : Bool) : Bool := %s" % (name, args, lean(e)))
+        lines.append("")
+        # the right-hand side of the rule as a clause list over variable numbers
+        if e[0] != "iff":
+            raise ValueError("untranslatable: %s is not an equivalence" % name)
+        clauses = [flatten(c, "or") for c in flatten(e[2], "and")]
+        lines.append("/-- right-hand side of %s as a list of clauses -/" % name)
+        lines.append("def %s_cnf (%s : Nat) : List (List (Nat × Bool)) :=\n  [%s]" % (
+            name, args, ", ".join("[" + ", ".join(lean_lit(x) for x in c) + "]" for c in clauses)))
         lines.append("")
         names.append((name, vs))
     lines.append("def ruleNames : List String := [%s]" % ", ".join('"%s"' % n for n, _ in names))
